@@ -10,10 +10,10 @@ EXPLANATION = (
     "non-allocating core items; there is no indirect call, Drop terminator or formatting machinery. R09.3: the "
     "thread-local slot is const-initialised, its type needs no drop (so std selects the destructor-free accessor), "
     "and it is read through try_with, never with. R09.2 as built: an external callee is accepted when it is on the explicit allow-list or is defined in crate core (no allocator) and is not a panicking / formatting / call-back function; local helpers of any name are held to the same standard transitively. R09.3 as built: the slot is const-initialised (no LazyStorage; a lazy initialiser's callees are reported) and its bare slot type needs no drop.")
-EXPLANATION += (" R09.4 every overflow-checked operation of the dev profile inside the hooks has an accumulated tally among its operands (unreachable below 2^63 operations); none is computed from the request's sizes alone, which a single unusual request could make panic before it is forwarded.")
+EXPLANATION += (" R09.4 no overflow-checked arithmetic inside the hooks (dev profile): the tallies use wrapping arithmetic, so no valid request - however large, however many - makes a hook panic before forwarding.")
 NOT_DECIDED = ["behaviour of the wrapped allocator itself", "macOS pthread-key implementation (cfg not analysable here)"]
 TRUSTED = ["std LocalKey const-init fast path registers no destructor when needs_drop::<T>() is false",
-           "Assert(Overflow) in the dev-profile tally arithmetic is unreachable below 2^63 operations (K2 has none)"]
+           ]
 
 METHODS = ["alloc", "alloc_zeroed", "realloc", "dealloc"]
 IMPL = "<alloc::AllocProfiler<A> as std::alloc::GlobalAlloc>::"
@@ -165,29 +165,22 @@ def run(ctx, prog, crate):
                 ctx.fail("R09.2", ["drop-in-allocator-hook", b.path, t["ty"]],
                          "a value of type `%s` is dropped inside an allocator hook" % t["ty"], b.where(i))
             if t["k"] == "assert" and t["kind"] == "Overflow":
-                # R09.4: an overflow check over accumulated tallies needs 2^63 operations to fail (trusted); one whose
-                # operands come from the request alone (sizes, layout) fails for a single unusual request - the hook
-                # would panic (format, allocate, unwind out of the allocator) before the request is forwarded
+                # R09.4: no overflow-checked arithmetic inside the hooks. Requests are tallied before they are forwarded, also
+                # the ones the wrapped allocator refuses: one valid request of Layout's largest size (isize::MAX) on a thread
+                # with live memory overflows the signed live-size total, three of them the unsigned byte sum - in the dev
+                # profile the hook then panics (formats, allocates, unwinds out of the allocator) instead of forwarding.
+                # The tallies therefore use wrapping arithmetic (F-C09).
                 srcs = b.prov.op_src(t["cond"])
-                ptys = {b.param_name(l): b.local_ty(l) for l in range(1, b.arg_count + 1)}
-                leaves = [x for x in srcs if x.kind in ("param", "call", "static", "field", "deref")]
-                def request_only(x):
-                    if x.kind == "param":
-                        ty = ptys.get(x.a, "?")
-                        return ty in _PLAIN or ty.endswith("alloc::Layout")
-                    if x.kind == "call":
-                        return x.a.startswith("std::alloc::Layout::")
-                    return False
-                n_r94 = getattr(ctx, "_r94", 0) + 1
-                ctx._r94 = n_r94
-                ctx.check(not (leaves and all(request_only(x) for x in leaves)), "R09.4", [b.path, "overflow-check-over-request-values", (t.get("msg", "").split("(", 1)[-1].split(",")[0] or "?")],
-                          "an overflow-checked operation inside an allocator hook has only request values as operands (%s): a single "
-                          "request with unusual sizes makes the hook panic instead of forwarding it" % sorted(x.label() for x in leaves),
-                          b.where(i))
+                leaves = sorted({x.label() for x in srcs if x.kind in ("param", "call", "static", "field", "deref")})
+                op = (t.get("msg", "").split("(", 1)[-1].split(",")[0] or "?")
+                ctx.fail("R09.4", [b.path, "overflow-checked-arithmetic-in-allocator-hook", op],
+                         "an overflow-checked `%s` over %s inside an allocator hook: a valid oversized request (or a few of them) makes "
+                         "the hook panic before the request is forwarded" % (op, leaves), b.where(i))
             if t["k"] == "assert" and t["kind"] not in ("Overflow", "BoundsCheck"):
                 ctx.fail("R09.2", ["panic-edge", b.path, t["kind"]], "possible panic (%s) inside an allocator hook" % t["kind"],
                          b.where(i))
-    ctx.anchor("R09.4", "overflow checks inside the allocator hooks examined (K1 dev profile)", getattr(ctx, "_r94", 0), 3)
+    ctx.anchor("R09.4", "bodies of the allocator hooks examined for overflow-checked arithmetic", n, 6)
+    ctx.ok("R09.4", "no-overflow-checked-arithmetic|%s" % ctx.cfg)
     for name, c in sorted(ext.items()):
         if name.startswith("std::alloc::GlobalAlloc::") and c.body.path.startswith(IMPL):
             continue  # the forwarded call itself (R09.1)
